@@ -37,6 +37,7 @@ class Ctx:
         self.counts = {}
         self.engine_stats = {}
         self.configs_used = set()
+        self.floor_failures = []
         self.notes = []
         self.exhaustive = False
         self.extra = {}
@@ -54,7 +55,9 @@ class Ctx:
     def floor(self, rule, minimum, what=""):
         n = self.counts.get(rule, 0)
         if n < minimum:
-            raise AnalysisBroken("rule %s matched %d instance(s), fewer than the %d confirmed by hand%s: "
+            # deferred: a rule that matched too few instances must not pass vacuously, but it does not take back a violation
+            # that another obligation has already established
+            self.floor_failures.append("rule %s matched %d instance(s), fewer than the %d confirmed by hand%s: "
                                  "an anchor moved or vanished; the rule must be re-confirmed, no verdict"
                                  % (rule, n, minimum, (" (" + what + ")") if what else ""))
 
@@ -89,6 +92,10 @@ def run_check(prop, module, tier, explanation, assumptions, seed=0):
     os.makedirs(os.path.dirname(evidence_path), exist_ok=True)
     try:
         module.check(ctx)
+        if ctx.floor_failures and all(o.ok for o in ctx.obs):
+            raise AnalysisBroken(ctx.floor_failures[0])
+        for m in ctx.floor_failures:
+            print("note: %s" % m)
     except AnalysisBroken as e:
         sys.stderr.write("ANALYSIS-BROKEN property=%s: %s\n" % (prop, e))
         # leave no stale evidence behind
